@@ -17,4 +17,14 @@ Transparent ==
 Fires == Complete => (Optimize(Tree, OptDevs).ok => TRUE)
 OptCase == [src |-> Src(Tree), n |-> n, fired |-> (Optimize(Tree, OptDevs).ok /\ Optimize(Tree, OptDevs).t # Tree)]
 EmitOpt == (Complete /\ EmitMode = "opt") => PrintT(ToJson(OptCase))
+
+(* C10: the optimizer's passes are visitors; a replacement of the ROOT node must take effect like any other. *)
+(* The kind of the root after the passes as implemented (the exponent fold is not modelled: such trees are   *)
+(* left out).                                                                                                  *)
+ImplDevs == {"Dev_InArrayStringUntyped", "Dev_InRangeRewrite"}
+RECURSIVE HasPow(_)
+HasPow(t) == (t.k = "bin" /\ t.op = "**") \/ \E i \in 1..Len(Kids(t)) : HasPow(Kids(t)[i])
+OptRootCase == [src |-> Src(Tree), n |-> n, walk |-> <<>>, nodes |-> n, psrc |-> "", patched |-> FALSE, cbp |-> HasConstBadPattern(Tree),
+                envs |-> {}, optroot |-> Optimize(Tree, ImplDevs).t.k]
+EmitOptRoot == (Complete /\ EmitMode = "optroot" /\ ~HasPow(Tree) /\ Optimize(Tree, ImplDevs).ok) => PrintT(ToJson(OptRootCase))
 =============================================================================
